@@ -350,15 +350,47 @@ def r5(ctx):
     if need(ctx, P, rule, UPDATE_HDR, fu):
         ws = assign_sites_prefix(fu, "header.tree")
         vals = {p: term_str(fu.origin_rvalue(fu.blocks[b].stmts[si]["rv"], b, si)) for b, si, p in ws}
+        # `mem::replace(&mut header.tree.x, v)` stores v in the field as well (and yields the OLD value)
+        for s_, t_ in fu.calls():
+            if (t_.get("callee") or "") in ("std::mem::replace", "core::mem::replace") and len(t_["args"]) == 2:
+                pth = path_of(strip(fu.arg_origin(s_, 0)))
+                if pth and pth.startswith("header.tree."):
+                    vals[pth] = term_str(fu.arg_origin(s_, 1))
         good = ("changeset.hash" in vals.get("header.tree.root_hash", "") and "changeset.signature" in vals.get("header.tree.signature", "") and "to_bytes" in vals.get("header.tree.signature", "")
                 and vals.get("header.tree.length") == "changeset.length")
         ctx.check(P, rule, "the header stores the changeset's root hash, signature and length", good, "header.tree.{root_hash,signature,length} <- changeset", "header.tree fields are set from %s" % vals, key="C05|C05.R5|update_header_with_changeset|fields")
         ent = [fu.origin_rvalue(st["rv"], b.i, si) for b in fu.live() for si, st in enumerate(b.stmts) if st["k"] == "assign" and st["rv"]["k"] == "agg" and st["rv"].get("name", "").endswith("EntryTreeUpgrade")]
+        ent_site = [b.i for b in fu.live() for si, st in enumerate(b.stmts) if st["k"] == "assign" and st["rv"]["k"] == "agg" and st["rv"].get("name", "").endswith("EntryTreeUpgrade")]
+        depth_ok = [True]
         good = False
         if ent:
             d = {k: term_str(v) for k, v in ent[0][3]}
-            good = d.get("fork") == "changeset.fork" and d.get("ancestors") == "changeset.ancestors" and d.get("length") == "changeset.length" and "changeset.signature" in d.get("signature", "")
-        ctx.check(P, rule, "the log entry carries the changeset's fork, ancestors, length and signature", good, "EntryTreeUpgrade fields <- changeset", "EntryTreeUpgrade is built from %s" % (d if ent else None))
+            # the signature must BE the changeset's (converted), not merely mention it: what
+            # `mem::replace(&mut header.tree.signature, new)` yields is the header's previous signature
+            def conv_of(t, path):
+                t = strip(t)
+                CONV = ("to_bytes", "into", "from", "clone", "expect", "unwrap", "as_ref", "to_vec", "into_boxed_slice", "to_owned", "deref", "borrow", "into_vec", "as_slice", "into_boxed")
+                while isinstance(t, tuple) and t[0] == "call" and t[2].split("::")[-1] in CONV and t[3]:
+                    t = strip(t[3][0])
+                if isinstance(t, tuple) and t[0] == "join":
+                    return all(conv_of(x, path) for x in t[1])
+                if path_of(t) == path:
+                    return True
+                # a read of a place this function has stored the value in before (the analysis joins
+                # the incoming value of a field behind `&mut` with what was assigned: weak update)
+                pth = path_of(t)
+                st_ = [(b_, si_) for b_, si_, p_ in ws if p_ == pth]
+                if pth and len(st_) == 1 and depth_ok[0]:
+                    depth_ok[0] = False
+                    b_, si_ = st_[0]
+                    r = conv_of(fu.origin_rvalue(fu.blocks[b_].stmts[si_]["rv"], b_, si_), path) and fu.dominates(b_, ent_site[0])
+                    depth_ok[0] = True
+                    return r
+                return False
+            sig = dict(ent[0][3]).get("signature")
+            good = d.get("fork") == "changeset.fork" and d.get("ancestors") == "changeset.ancestors" and d.get("length") == "changeset.length" and sig is not None and conv_of(sig, "changeset.signature")
+        ctx.check(P, rule, "the log entry carries the changeset's fork, ancestors, length and signature", good, "EntryTreeUpgrade fields <- changeset", "EntryTreeUpgrade is built from %s: replaying the entry on reopen installs that as the tree's signature, and the core then serves a signature that is not over its current head" % (d if ent else None),
+                  key="C05|C05.R5|update_header_with_changeset|entry fields")
     fa = ctx.real_body(APPEND_BATCH, [APPEND_CS])
     if need(ctx, P, rule, APPEND_BATCH, fa):
         hs, ac = sites(fa, CS_HASH_SIGN), sites(fa, APPEND_CS)
